@@ -132,11 +132,25 @@ def pool_cases(ctx):
     swapped['out'][0], swapped['out'][1] = swapped['out'][1], swapped['out'][0]
     badlog = copy.deepcopy(case)
     badlog['logs'] = [[2, 1, 3]]          # one worker claims to have run task 2 before task 1: not FIFO
-    cases = [case, swapped, badlog]
-    metas = [{'api': 'x', 'realised_completion_order': []}] * 3
+    # a 2-D run through the group object (fitted before to another stack), with the group's recompute_edges
+    gcase, _ = pt.run_2d(sigs, 64, (8, 12), pt.kw_variant(rng, 1), 2, None, [0.0, 0.0, 0.0], logdir, via_group=True)
+    gcase['ref'] = pt.reference_2d(sigs, 64, (8, 12), pt.kw_variant(rng, 1))
+    gcase['pid'] = 'C11'
+    gm = copy.deepcopy(gcase)
+    gm['models'][0], gm['models'][1] = gm['models'][1], gm['models'][0]
+    gr = copy.deepcopy(gcase)
+    gr['rmodels'][-1] += 1
+    big = copy.deepcopy(case)
+    big['check_logs'], big['check_schedule'] = True, False
+    bigbad = copy.deepcopy(big)
+    bigbad['logs'] = [[1, 2], [2, 3]]       # task 2 claimed by two workers
+    cases = [case, swapped, badlog, gcase, gm, gr, big, bigbad]
+    metas = [{'api': 'x', 'realised_completion_order': []}] * len(cases)
     sub = common.Ctx('C11', 'quick', 0, ctx.scratch)
     verdicts = c11.judge(sub, cases, metas, 'C11')
-    for name, v in zip(['original 2-D group run', 'two result tables swapped', 'worker log not in submission order'], verdicts):
+    for name, v in zip(['original 2-D run', 'two result tables swapped', 'worker log not in submission order', 'original 2-D run through the group object (refit + group recompute_edges)',
+                        'two models of the group swapped', 'one model table after the group recompute_edges altered', 'original run judged without schedule search',
+                        'one task in the logs of two workers (no schedule search)'], verdicts):
         expect_ok = name.startswith('original')
         ok = (not v) if expect_ok else bool(v)
         ROWS.append(('Trace_Pool', name, 'accepted' if not v else 'rejected: ' + ', '.join(v)[:110], 'as expected' if ok else 'UNEXPECTED'))
@@ -146,7 +160,7 @@ def pool_cases(ctx):
 def session_cases(ctx):
     import session_rp
     beh = [{'a': 'New', 'o': 1, 'method': 'amp', 'tk': 3, 's': 0, 'v': 0}, {'a': 'Fit', 'o': 1, 'method': 'amp', 'tk': 3, 's': 1, 'v': 0},
-           {'a': 'Edit', 'o': 3, 'method': 'mnc', 'tk': 0, 's': 0, 'v': 2}, {'a': 'Fit', 'o': 1, 'method': 'amp', 'tk': 3, 's': 1, 'v': 0},
+           {'a': 'Edit', 'o': 3, 'method': 'mnc', 'tk': 0, 's': 0, 'v': 3}, {'a': 'Fit', 'o': 1, 'method': 'amp', 'tk': 3, 's': 1, 'v': 0},
            {'a': 'Call', 'o': 0, 'method': 'amp', 'tk': 3, 's': 1, 'v': 0, 'f': 'compute_features'}, {'a': 'GetAttr', 'o': 1, 'method': 'amp', 'tk': 3, 's': 0, 'v': 0}]
     tr = session_rp.replay(beh, shorthand=False)
     t1 = copy.deepcopy(tr)
@@ -170,6 +184,14 @@ def session_cases(ctx):
         print('Trace_Session', name, vv[:2], 'OK' if ok else 'UNEXPECTED', flush=True)
 
 
+def _runfilter(ctx, cases):
+    path = os.path.join(ctx.scratch.path, 'corr_runfilter.json')
+    tlc.dump_json(path, cases)
+    res = tlc.must(tlc.run('Trace_RunFilter', tlc.cfg(), ctx.scratch, env={'TRACE_FILE': path}, workers=1), 'Trace_RunFilter')
+    v = {p[1]: list(p[2]) for p in res['prints'] if p[0] == 'VERDICT'}
+    return [v[i + 1] for i in range(len(cases))]
+
+
 def misc_cases(ctx):
     import tables_tv as tt
     from props import c16, c17, c20
@@ -190,6 +212,24 @@ def misc_cases(ctx):
     lim2['out'] = lim2['out'][1:]
     judge(ctx, 'Trace_Tables', [e, e2, e3, lim, lim2], ['original epoch_df', 'one cycle moved to the neighbouring epoch', 'one shifted sample index + 1', 'original limit_df',
                                                          'a cycle entirely inside the window missing'])
+    from bycycle.features import compute_shape_features
+    shp = compute_shape_features(-c['sig'], c['fs'], c['f_range'])
+    rn = tt.record_rename(shp, 'trough', True, True, lab=1)
+    rn2 = copy.deepcopy(rn)
+    k_vp = next(k for k, x in enumerate(rn2['cols_out']) if x[0] == 'volt_peak')
+    k_vt = next(k for k, x in enumerate(rn2['cols_out']) if x[0] == 'volt_trough')
+    rn2['cols_out'][k_vp][1], rn2['cols_out'][k_vt][1] = rn2['cols_out'][k_vt][1], rn2['cols_out'][k_vp][1]
+    rn3 = copy.deepcopy(rn)
+    next(x for x in rn3['cols_out'] if x[0] == 'sample_trough')[0] = 'sample_peak'
+    judge(ctx, 'Trace_Tables', [rn, rn2, rn3], ['original rename_extrema_df (trough)', 'the two extremum voltages not swapped', 'a sample column not renamed'])
+    from props import c08
+    rl = c08.rle_record([[True, 70000], [False, 2], [True, 2], [False, 5]], 3)
+    rl2 = copy.deepcopy(rl)
+    rl2['kept'][0] -= 65536
+    rl3 = copy.deepcopy(rl)
+    rl3['kept'][2] = 2
+    judge(ctx, 'Trace_RunFilter', [rl, rl2, rl3], ['original run-length coded call', 'a long run lost 2^16 elements', 'a short run kept'],
+          extra=lambda ctx_, cases_: _runfilter(ctx_, cases_))
     rec = c17.record_case(60, [10, 30, 50], [20, 40], [25, 45], [15, 35])
     r2 = copy.deepcopy(rec)
     r2['codes'][r2['pk'][1]] += 1
